@@ -97,6 +97,20 @@ extern void mpt_graph_init(MPT_STRUCT(graph) *gr, const MPT_STRUCT(graph) *from)
 }
 
 
+/* replace the content by a copy (or the defaults); unchanged when a string can not be duplicated */
+static int graphAssign(MPT_STRUCT(graph) *gr, const MPT_STRUCT(graph) *from)
+{
+	MPT_STRUCT(graph) tmp;
+	
+	mpt_graph_init(&tmp, from);
+	if (from && ((from->_axes && !tmp._axes) || (from->_worlds && !tmp._worlds))) {
+		mpt_graph_fini(&tmp);
+		return MPT_ERROR(BadOperation);
+	}
+	mpt_graph_fini(gr);
+	*gr = tmp;
+	return 0;
+}
 /*!
  * \ingroup mptPlot
  * \brief set graph properties
@@ -125,9 +139,7 @@ extern int mpt_graph_set(MPT_STRUCT(graph) *gr, const char *name, MPT_INTERFACE(
 			if (len && from == gr) {
 				return 0;
 			}
-			mpt_graph_fini(gr);
-			mpt_graph_init(gr, len ? from : 0);
-			return 0;
+			return graphAssign(gr, len ? from : 0);
 		}
 		if ((type = mpt_color_typeid()) > 0
 		 && (len = src->_vptr->convert(src, type, &gr->fg)) >= 0) {
@@ -151,8 +163,9 @@ extern int mpt_graph_set(MPT_STRUCT(graph) *gr, const char *name, MPT_INTERFACE(
 			if (len && from == gr) {
 				return 0;
 			}
-			mpt_graph_fini(gr);
-			mpt_graph_init(gr, len ? from : 0);
+			if (graphAssign(gr, len ? from : 0) < 0) {
+				return MPT_ERROR(BadOperation);
+			}
 			return len <= 0 ? len : 1;
 		}
 		return MPT_ERROR(BadType);
